@@ -193,8 +193,10 @@ ExecTop(M, ss, i, T) ==
 \* ------------------------------------------------------------------ judging
 WithConsts(st, L, T) ==
   LET put(s, nm, v) == IF nm \in DOMAIN s THEN StoreAt(s, nm, 1, VI(v)) ELSE s IN
-  put(put(put(put(st, "pv_last_dof_owned", L.owned), "pv_last_dof_annexed", L.annexed),
-          "pv_undf", L.undf), "pv_nthreads", T)
+  \* pv_other: a defined value that is none of the DoF counts of the built-in's
+  \* space (cell counts, sizes of the spaces of coded kernels in the same invoke)
+  put(put(put(put(put(st, "pv_last_dof_owned", L.owned), "pv_last_dof_annexed", L.annexed),
+              "pv_undf", L.undf), "pv_nthreads", T), "pv_other", L.undf - 1)
 
 \* name of the data array the definition modifies ("" for a reduction)
 DocTarget(c) ==
